@@ -22,6 +22,7 @@ package reader
 //@   ensures implies(r != nil, tr.position == old(tr.position) + 1)
 //@   ensures implies(r == nil, tr.position == old(tr.position))
 //@   ensures implies(r != nil, r.Value == tr.tokens[old(tr.position)].Value) @C16
+//@   ensures implies(r != nil, r.Cursor == tr.tokens[old(tr.position)].Cursor) @C17
 
 //@ func (*tokenReader).peek(tr) (r)
 //@   requires validReader(tr)
@@ -29,6 +30,7 @@ package reader
 //@   assigns nothing
 //@   ensures (r == nil) == (tr.position >= len(tr.tokens))
 //@   ensures implies(r != nil, r.Value == tr.tokens[tr.position].Value) @C16
+//@   ensures implies(r != nil, r.Cursor == tr.tokens[tr.position].Cursor) @C17
 
 
 // ---- C16: incomplete versus malformed input, at token level -----------------------------------
@@ -51,7 +53,7 @@ package reader
 // the recursive-descent functions: never panic, leave a valid cursor that only moves
 // forward, and terminate (lexicographic measure: remaining tokens, then a rank).
 //@ func read_form(rdr, placeholderValues, ns) (r, e)
-//@   preserves comp:elem:types_Token, comp:cell:types_Token
+//@   preserves comp:elem:types_Token, comp:cell:types_Token, comp:cell:types_Position
 //@   requires validReader(rdr)
 //@   requires ns == nil || validEnvVal(ns)
 //@   panics never
@@ -62,7 +64,7 @@ package reader
 //@   ensures cls(e) == rfC(rdr.tokens, old(rdr.position)) && implies(e == nil, rdr.position == rfP(rdr.tokens, old(rdr.position))) @assume
 
 //@ func read_list(rdr, start, end, placeholderValues, ns) (r, e)
-//@   preserves comp:elem:types_Token, comp:cell:types_Token
+//@   preserves comp:elem:types_Token, comp:cell:types_Token, comp:cell:types_Position
 //@   requires validReader(rdr)
 //@   requires ns == nil || validEnvVal(ns)
 //@   panics never
@@ -78,7 +80,7 @@ package reader
 //@   ensures implies(!(old(rdr.position) < len(rdr.tokens) && rdr.tokens[old(rdr.position)].Value == start), cls(e) == 5) @C16
 
 //@ func read_vector(rdr, placeholderValues, ns) (r, e)
-//@   preserves comp:elem:types_Token, comp:cell:types_Token
+//@   preserves comp:elem:types_Token, comp:cell:types_Token, comp:cell:types_Position
 //@   requires validReader(rdr)
 //@   requires ns == nil || validEnvVal(ns)
 //@   panics never
@@ -88,7 +90,7 @@ package reader
 //@   ensures implies(old(rdr.position) < len(rdr.tokens) && rdr.tokens[old(rdr.position)].Value == "[", cls(e) == rlC(rdr.tokens, old(rdr.position) + 1, "]") && implies(e == nil, rdr.position == rlP(rdr.tokens, old(rdr.position) + 1, "]"))) @C16
 
 //@ func read_hash_map(rdr, placeholderValues, ns) (r, e)
-//@   preserves comp:elem:types_Token, comp:cell:types_Token
+//@   preserves comp:elem:types_Token, comp:cell:types_Token, comp:cell:types_Position
 //@   requires validReader(rdr)
 //@   requires ns == nil || validEnvVal(ns)
 //@   panics never
@@ -98,7 +100,7 @@ package reader
 //@   ensures implies(old(rdr.position) < len(rdr.tokens) && rdr.tokens[old(rdr.position)].Value == "{", ite(rlC(rdr.tokens, old(rdr.position) + 1, "}") != 0, cls(e) == rlC(rdr.tokens, old(rdr.position) + 1, "}"), (e == nil && rdr.position == rlP(rdr.tokens, old(rdr.position) + 1, "}")) || cls(e) == 5)) @C16
 
 //@ func read_set(rdr, placeholderValues, ns) (r, e)
-//@   preserves comp:elem:types_Token, comp:cell:types_Token
+//@   preserves comp:elem:types_Token, comp:cell:types_Token, comp:cell:types_Position
 //@   requires validReader(rdr)
 //@   requires ns == nil || validEnvVal(ns)
 //@   panics never
@@ -108,7 +110,7 @@ package reader
 //@   ensures implies(old(rdr.position) < len(rdr.tokens) && rdr.tokens[old(rdr.position)].Value == "#{", ite(rlC(rdr.tokens, old(rdr.position) + 1, "}") != 0, cls(e) == rlC(rdr.tokens, old(rdr.position) + 1, "}"), (e == nil && rdr.position == rlP(rdr.tokens, old(rdr.position) + 1, "}")) || cls(e) == 5)) @C16
 
 //@ func read_external(rdr, placeholderValues, ns) (r, e)
-//@   preserves comp:elem:types_Token, comp:cell:types_Token
+//@   preserves comp:elem:types_Token, comp:cell:types_Token, comp:cell:types_Position
 //@   requires validReader(rdr)
 //@   requires ns == nil || validEnvVal(ns)
 //@   panics never
